@@ -30,9 +30,9 @@ type C17Case struct {
 }
 
 func genC17(t *rapid.T) C17Case {
-	c := C17Case{Mode: rapid.SampledFrom([]string{"spoof", "badpeer", "reattach", "cancel"}).Draw(t, "mode"), Ser: rapid.Bool().Draw(t, "ser")}
+	c := C17Case{Mode: rapid.SampledFrom([]string{"spoof", "badpeer", "reattach", "cancel", "attach-race"}).Draw(t, "mode"), Ser: rapid.Bool().Draw(t, "ser")}
 	c.Spoof = rapid.SampledFrom([]string{"other-source", "empty-source", "no-header", "unattached-source"}).Draw(t, "spoof")
-	c.Role = rapid.SampledFrom([]string{"stuck-writer", "failing-reader", "failing-writer", "dial-error", "slow-dial", "slow-failing-dial"}).Draw(t, "role")
+	c.Role = rapid.SampledFrom([]string{"stuck-writer", "failing-reader", "failing-writer", "dial-error", "slow-dial", "slow-failing-dial", "both-fail-busy"}).Draw(t, "role")
 	c.OldFailsFirst = rapid.Bool().Draw(t, "old_first")
 	c.FailKind = rapid.SampledFrom([]string{"read", "write"}).Draw(t, "failkind")
 	c.Rounds = rapid.IntRange(1, 6).Draw(t, "rounds")
@@ -48,7 +48,19 @@ func execC17(t *testing.T, c C17Case) (v Verdict) {
 	var disconnects, dials []string
 	res := kit.Bubble(t, func() {
 		bg := context.Background()
-		w := newPxWorld(c.Ser, nil)
+		var w *pxWorld
+		w = newPxWorld(c.Ser, func(h *goatorepo.RequestHeader) error {
+			if h.Destination == "block" {
+				w.mu.Lock()
+				g := w.blockGate
+				w.mu.Unlock()
+				if g != nil {
+					<-g
+				}
+				return fmt.Errorf("dropped")
+			}
+			return nil
+		})
 		c0 := w.attach("c0")
 		c1 := w.attach("c1")
 		kit.Settle()
@@ -135,6 +147,25 @@ func execC17(t *testing.T, c C17Case) (v Verdict) {
 			case "slow-dial":
 				w.dialable["slow"] = true
 				_ = c0.A.Write(bg, pxEnv("c0", "slow", 500))
+			case "both-fail-busy":
+				// the forwarding loop is busy (parked in the address-rewriting callback) while the bad peer's
+				// read and write both fail; afterwards the failure must still be reported and the peer removed
+				bad := w.attach("bad")
+				bad.B.Hold(func(*kit.Rpc) bool { return true })
+				_ = c0.A.Write(bg, pxEnv("c0", "bad", 500)) // parks the bad peer's write loop in its transport write
+				kit.Settle()
+				w.blockGate = make(chan struct{})
+				_ = c0.A.Write(bg, pxEnv("c0", "block", 501)) // parks the forwarding loop in the callback
+				kit.Settle()
+				bad.B.FailReads(nil)
+				kit.Settle()
+				bad.B.FailWrites(nil)
+				for _, h := range bad.Held() {
+					h.Release()
+				}
+				kit.Settle()
+				close(w.blockGate)
+				kit.Settle()
 			case "slow-failing-dial":
 				// the dial is still in progress when the proxy is cancelled, and fails afterwards
 				w.slowDial = make(chan struct{})
@@ -146,7 +177,7 @@ func execC17(t *testing.T, c C17Case) (v Verdict) {
 			ds := strings.Join(w.disconnects, ",")
 			w.mu.Unlock()
 			switch c.Role {
-			case "failing-reader", "failing-writer":
+			case "failing-reader", "failing-writer", "both-fail-busy":
 				if !strings.Contains(ds, "bad") {
 					v.failf("%s: the failed connection was not reported to the disconnect callback (got %q)", c.Role, ds)
 				}
@@ -207,6 +238,35 @@ func execC17(t *testing.T, c C17Case) (v Verdict) {
 			}
 			c1.A.ReadAvailable() // discard what the probe write may have delivered
 			honest("after re-attachment")
+		case "attach-race":
+			// peers attach at the very moment the first envelope for their name arrives (no quiescent point in
+			// between); whatever happens to that first envelope, the attached connection must be the one that
+			// serves the name afterwards
+			for i := 0; i < 24 && v.Fail == ""; i++ {
+				name := fmt.Sprintf("r%d", i)
+				start := make(chan struct{})
+				var nl *kit.Link
+				attached := make(chan struct{})
+				go func() {
+					<-start
+					nl = w.attach(name)
+					close(attached)
+				}()
+				go func() {
+					<-start
+					_ = c0.A.Write(bg, pxEnv("c0", name, 2000+i))
+				}()
+				kit.Settle()
+				close(start)
+				<-attached
+				kit.Settle()
+				nl.A.ReadAvailable()
+				_ = c0.A.Write(bg, pxEnv("c0", name, 3000+i))
+				kit.Settle()
+				if got := nl.A.ReadAvailable(); len(got) != 1 || got[0].GetId() != uint64(3000+i) {
+					v.failf("attach-race: an envelope for %s, sent after the peer had attached, did not reach the attached connection (got %d envelopes)", name, len(got))
+				}
+			}
 		case "cancel":
 			steps := 0
 			for r := 0; r < c.Rounds && steps < c.CancelAt; r++ {
